@@ -1,6 +1,7 @@
 package sym
 
 import (
+	"encoding/json"
 	"fmt"
 	"os"
 	"os/exec"
@@ -34,6 +35,34 @@ func BuildOverlay(repo, pkgPath string, harness []string, zzvrfDir string, nativ
 	pkgDir := filepath.Join(repo, rel)
 	for _, h := range harness {
 		if h == "" {
+			continue
+		}
+		// "P:patches.json": source patches applied to /repo's current files in the overlay only
+		// ([{"file": "server/tso/x.go", "old": "...", "new": "..."}], each `old` must occur exactly once):
+		// used to cut the code at a call that cannot be modelled (an RPC fan-out) and route it to a
+		// contract stub defined in the harness; the symbolic and the native run see the same overlay
+		if strings.HasPrefix(h, "P:") {
+			raw, err := os.ReadFile(h[2:])
+			if err != nil {
+				return nil, err
+			}
+			var ps []struct{ File, Old, New string }
+			if err := json.Unmarshal(raw, &ps); err != nil {
+				return nil, fmt.Errorf("%s: %v", h, err)
+			}
+			for _, pt := range ps {
+				full := filepath.Join(repo, pt.File)
+				cur, ok := overlay[full]
+				if !ok {
+					if cur, err = os.ReadFile(full); err != nil {
+						return nil, err
+					}
+				}
+				if n := strings.Count(string(cur), pt.Old); n != 1 {
+					return nil, fmt.Errorf("source patch for %s: the anchored text occurs %d times in the current tree (expected once)", pt.File, n)
+				}
+				overlay[full] = []byte(strings.Replace(string(cur), pt.Old, pt.New, 1))
+			}
 			continue
 		}
 		// "file.go" goes into the target package; "file.go@server/election" into that package directory
